@@ -52,7 +52,42 @@ HasLocOK(site, sel, ign, ans) ==
     LET cl == Class(site, sel, ign) IN
     CASE cl = "drop" -> ans = FALSE [] cl = "store" -> ans = TRUE [] cl = "either" -> TRUE
 
-(* D-level: the code's decision, flag by flag *)
+---------------------------------------------------------------------------------------------------
+(* Unphased genotypes (phased = FALSE): the resolver does not look at the samples; the alleles of  *)
+(* the record get the letters U, V, W, X, Y, Z in the order REF, ALT1, ALT2, ... and a lookup of   *)
+(* base b answers the letter of the allele equal to b.  P-level reading:                           *)
+(*   - a record with a multi-base REF is not a single-nucleotide site under any reading: drop;     *)
+(*   - an ignored conversion REF>ALT for a listed single-base ALT: drop (all listed alleles count  *)
+(*     as present, no genotype is consulted);                                                      *)
+(*   - a listed multi-base ALT next to single-base alleles, or a record without any ALT, is not    *)
+(*     determined by the statement: either (nothing, or the letters);                              *)
+(*   - otherwise: store.                                                                           *)
+AllelesOfRecord(site) == <<site.ref>> \o site.alts
+Letters == <<"U", "V", "W", "X", "Y", "Z">>
+ULetters(site, b) == { Letters[i] : i \in { k \in DOMAIN AllelesOfRecord(site) : k <= 6 /\ AllelesOfRecord(site)[k] = b } }
+UIgn(site, ign) == \E a \in SeqSet(site.alts) \cap Bases : <<site.ref, a>> \in ign
+UClass(site, ign) ==
+    IF site.ref \notin Bases THEN "drop"
+    ELSE IF UIgn(site, ign) THEN "drop"
+    ELSE IF site.alts = <<>> \/ \E a \in SeqSet(site.alts) : a \notin Bases THEN "either"
+    ELSE "store"
+UAnswerOK(site, ign, b, ans) ==
+    LET cl == UClass(site, ign) IN
+    CASE cl = "drop" -> ans = {} [] cl = "store" -> ans = ULetters(site, b) [] cl = "either" -> ans = {} \/ ans = ULetters(site, b)
+UHasLocOK(site, ign, ans) ==
+    LET cl == UClass(site, ign) IN
+    CASE cl = "drop" -> ans = FALSE [] cl = "store" -> ans = TRUE [] cl = "either" -> TRUE
+(* D-level: the unphased branch of fetchChromosome (l.296-303): every allele of the record single-base *)
+UStoreCode(site, ign) ==
+    /\ \A a \in SeqSet(AllelesOfRecord(site)) : a \in Bases
+    /\ ~\E a \in SeqSet(AllelesOfRecord(site)) : <<site.ref, a>> \in ign
+(* mutation control (seeded change C18-r2m4): only the ALT alleles are tested *)
+UStoreCodeAltsOnly(site, ign) ==
+    /\ \A a \in SeqSet(site.alts) : a \in Bases
+    /\ ~\E a \in SeqSet(AllelesOfRecord(site)) : <<site.ref, a>> \in ign
+
+---------------------------------------------------------------------------------------------------
+(* D-level: the code's decision for phased genotypes, flag by flag *)
 StoreCode(site, sel, ign) ==
     LET cb       == CalledBases(site, sel)
         used     == cb # {}
